@@ -81,3 +81,25 @@ def check_transaction_rejects(version, txs_in, txs_out, lock_time, max_money):
     and has no other defect is accepted)"""
     return (len(txs_out) == 0 or len(txs_in) == 0 or not outs_ok(txs_out, max_money) or txs_in_bad(txs_in)
             or len(ser_tx(version, txs_in, txs_out, lock_time, False, any_witness(txs_in))) > MAX_TX_SIZE)
+
+
+# ---------------------------------------------------------------- vocabulary for the proof of Tx._check_txs_in
+K_PAIR = ('tup', ('bytes', 'int'))
+K_PAIRS = ('seq', K_PAIR)
+
+
+@spec(rec=True, args=[K_TXINS, 'int'], ret=K_PAIRS, post=lambda xs, i, result: len(result) == (i if i > 0 else 0))
+def outpoints_upto(xs, i):
+    """the outpoints (hash, index) of the first i inputs, in order"""
+    if i <= 0:
+        return ()
+    return outpoints_upto(xs, i - 1) + ((xs[i - 1].previous_hash, xs[i - 1].previous_index),)
+
+
+@spec(rec=True, args=[K_TXINS, 'int', ('rec', TxInT)], ret='int', post=lambda xs, i, x, result: result >= 0, name='seq_count_TxIn')
+def seq_count_TxIn(xs, i, x):
+    """number of the first i inputs equal (field by field) to x -- an upper bound of list.count on TxIn objects, which
+    compare by identity"""
+    if i <= 0:
+        return 0
+    return seq_count_TxIn(xs, i - 1, x) + (1 if xs[i - 1] == x else 0)
